@@ -144,9 +144,13 @@ var contentAlphabet = map[string]func(w *worker) string{
 }
 
 // variantsFor lists the argument-shape variants of one tool (thorough tier; "minimal" is the quick tier).
-func variantsFor(tool string) []string {
+func variantsFor(tool string, thorough bool) []string {
 	t, known := refByName[tool]
 	vs := []string{"minimal"}
+	if thorough {
+		// environment states and a repeated call in one session (same gate, other code paths / error paths)
+		vs = append(vs, "env:no-db", "env:bad-config", "env:no-config", "twice")
+	}
 	if !known {
 		return append(vs, "no-arguments")
 	}
@@ -180,7 +184,7 @@ func variantsFor(tool string) []string {
 func buildArgs(w *worker, tool, variant string) (args map[string]any, omit bool, err error) {
 	args = minimalArgs(w, tool)
 	switch {
-	case variant == "minimal":
+	case variant == "minimal", variant == "twice", strings.HasPrefix(variant, "env:"):
 	case variant == "no-arguments":
 		return nil, true, nil
 	case variant == "unknown-key":
@@ -285,17 +289,41 @@ func runCase(w *worker, spec caseSpec) *caseResult {
 		cr.InfraErr = err.Error()
 		return cr
 	}
-	if b, err := json.Marshal(args); err == nil {
+	cr.ArgsJSON = "{}"
+	if b, err := json.Marshal(args); err == nil && args != nil {
 		cr.ArgsJSON = string(b)
+	}
+	dbMissing := false
+	switch spec.Variant {
+	case "env:no-db":
+		if err := os.Remove(w.dbPath); err != nil {
+			cr.InfraErr = err.Error()
+			return cr
+		}
+		dbMissing = true
+	case "env:bad-config":
+		if err := os.WriteFile(w.cfgPath, []byte(contentAlphabet["parse-invalid"](w)), 0o600); err != nil {
+			cr.InfraErr = err.Error()
+			return cr
+		}
+	case "env:no-config":
+		if err := os.Remove(w.cfgPath); err != nil {
+			cr.InfraErr = err.Error()
+			return cr
+		}
+	}
+	repeat := 1
+	if spec.Variant == "twice" {
+		repeat = 2
 	}
 	before, err := w.snapshot()
 	if err != nil {
 		cr.InfraErr = "snapshot: " + err.Error()
 		return cr
 	}
-	cfgBefore, _ := os.ReadFile(w.cfgPath)
+	cfgBefore, cfgBeforeErr := os.ReadFile(w.cfgPath)
 
-	res := w.runSession(spec.Cfg, spec.Tool, args, omit)
+	res := w.runSession(spec.Cfg, spec.Tool, args, omit, repeat)
 
 	// --- observations after the call
 	after, err := w.snapshot()
@@ -304,7 +332,7 @@ func runCase(w *worker, spec caseSpec) *caseResult {
 		return cr
 	}
 	changed := diffSnap(before, after)
-	dbCh, err := w.dbChanged()
+	dbCh, err := w.dbChanged(dbMissing)
 	if err != nil {
 		cr.InfraErr = "db dump: " + err.Error()
 		return cr
@@ -398,7 +426,7 @@ func runCase(w *worker, spec caseSpec) *caseResult {
 
 	// --- effects
 	cfgAfter, cfgErr := os.ReadFile(w.cfgPath)
-	cfgChanged := cfgErr != nil || string(cfgAfter) != string(cfgBefore)
+	cfgChanged := (cfgErr != nil) != (cfgBeforeErr != nil) || string(cfgAfter) != string(cfgBefore)
 	var effects []string
 	var otherFiles []string
 	for _, d := range changed {
@@ -473,8 +501,8 @@ func runCase(w *worker, spec caseSpec) *caseResult {
 		if res.AuditBad > 0 {
 			fail("audit:"+spec.Tool+":"+class+":not-json", "audit output has %d lines that are not JSON objects: %q", res.AuditBad, res.AuditRaw)
 		}
-		if cr.AuditN != 1 {
-			fail(fmt.Sprintf("audit:%s:%s:count=%d", spec.Tool, class, cr.AuditN), "mutating call (%s, variant %s, cfg %s) produced %d audit records, want exactly 1: %q", class, spec.Variant, spec.Cfg.key(), cr.AuditN, res.AuditRaw)
+		if cr.AuditN != repeat {
+			fail(fmt.Sprintf("audit:%s:%s:count=%d/%d", spec.Tool, class, cr.AuditN, repeat), "%d mutating call(s) (%s, variant %s, cfg %s) produced %d audit records, want exactly one per call: %q", repeat, class, spec.Variant, spec.Cfg.key(), cr.AuditN, res.AuditRaw)
 		} else if len(res.Audit) == 1 {
 			ev := res.Audit[0]
 			for _, f := range auditFields {
@@ -549,6 +577,10 @@ func runCase(w *worker, spec caseSpec) *caseResult {
 func allCases(thorough bool) []caseSpec {
 	type roleIn struct{ role, via string }
 	roles := []roleIn{{"read", "option"}, {"operate", "option"}, {"admin", "option"}, {"root", "option"}, {"superuser", "field"}}
+	if thorough {
+		// further invalid role inputs (none of them is one of the three documented role names)
+		roles = append(roles, roleIn{"administrator", "option"}, roleIn{"admin,operate", "field"}, roleIn{"", "field"})
+	}
 	var names []string
 	for _, t := range refTable {
 		names = append(names, t.Name)
@@ -563,10 +595,7 @@ func allCases(thorough bool) []caseSpec {
 	}
 	var out []caseSpec
 	for _, n := range names {
-		vs := []string{"minimal"}
-		if thorough {
-			vs = variantsFor(n)
-		}
+		vs := variantsFor(n, thorough)
 		for _, ro := range roles {
 			for _, mut := range []bool{false, true} {
 				for _, rt := range []bool{false, true} {
@@ -621,7 +650,7 @@ func TestCheck(t *testing.T) {
 		r.Infra("reset: %v", err)
 		r.Finish()
 	}
-	full := w0.runSession(gateCfg{Role: "admin", RoleVia: "option", Mut: true, RT: true, Principal: principalName}, "config_parse", map[string]any{}, false)
+	full := w0.runSession(gateCfg{Role: "admin", RoleVia: "option", Mut: true, RT: true, Principal: principalName}, "config_parse", map[string]any{}, false, 1)
 	if full.ProtoErr != "" || full.ServeErr != "" {
 		r.Infra("fully enabled admin session failed: %s %s", full.ProtoErr, full.ServeErr)
 		r.Finish()
@@ -671,8 +700,10 @@ func TestCheck(t *testing.T) {
 		resultClass = map[string]map[string]int{"denied": {}, "ran-ok": {}, "failed": {}}
 		effectSeen  = map[string]int{}
 		allowedRuns = map[string]int{}
+		relational  []finding
 		done        int
 		stopped     bool
+		debug       = os.Getenv("VERIF_C20_DEBUG")
 	)
 	jobs := make(chan int)
 	var wg sync.WaitGroup
@@ -724,6 +755,9 @@ func TestCheck(t *testing.T) {
 					r.Sample(map[string]any{"tool": spec.Tool, "cfg": spec.Cfg.key(), "variant": spec.Variant, "ref": cr.Verdict.String(),
 						"refused": cr.Refused, "listed": cr.Listed, "audit_records": cr.AuditN, "audit_result": cr.AuditRes, "effects": cr.Effects})
 				}
+				if debug != "" && strings.Contains(spec.key(), debug) {
+					fmt.Printf("DEBUG %-70s ref=%-6s refused=%-5v listed=%-5v audit=%d/%-7s effects=%v\n", spec.key(), cr.Verdict, cr.Refused, cr.Listed, cr.AuditN, cr.AuditRes, cr.Effects)
+				}
 				mu.Lock()
 				done++
 				if known && tref.Mutating && cr.AuditRes != "" {
@@ -738,12 +772,12 @@ func TestCheck(t *testing.T) {
 				if cr.InputHash != "" {
 					ak := spec.Tool + "|" + cr.ArgsJSON
 					if prev, ok := hashByArgs[ak]; ok && prev != cr.InputHash {
-						cr.Findings = append(cr.Findings, finding{"audit:input_hash:unstable", fmt.Sprintf("same arguments %s hashed to %s and %s", ak, prev, cr.InputHash)})
+						relational = append(relational, finding{"audit:input_hash:unstable", fmt.Sprintf("same arguments %s hashed to %s and %s", ak, prev, cr.InputHash)})
 					}
 					hashByArgs[ak] = cr.InputHash
 					hk := spec.Tool + "|" + cr.InputHash
 					if prev, ok := argsByHash[hk]; ok && prev != ak {
-						cr.Findings = append(cr.Findings, finding{"audit:input_hash:collision", fmt.Sprintf("different arguments %s and %s carry the same input_hash %s", prev, ak, cr.InputHash)})
+						relational = append(relational, finding{"audit:input_hash:collision", fmt.Sprintf("different arguments %s and %s carry the same input_hash %s", prev, ak, cr.InputHash)})
 					}
 					argsByHash[hk] = ak
 				}
@@ -783,6 +817,9 @@ func TestCheck(t *testing.T) {
 	}
 
 	// --- relational audit checks over the whole run
+	for _, f := range relational {
+		r.Violation(f.Key, f.Msg, nil, nil)
+	}
 	for res := range resultClass["denied"] {
 		if resultClass["ran-ok"][res] > 0 {
 			r.Violation("audit:result:denied-equals-success:"+res, fmt.Sprintf("the audit result %q is written both for refused-by-gate calls and for successful calls", res), nil, nil)
@@ -821,7 +858,7 @@ func TestCheck(t *testing.T) {
 	r.Set("allowed_rows_with_observed_effect", eff)
 	r.Set("workers", nw)
 	r.Set("cases_planned", len(cases))
-	r.Set("rule", "complete product: 31 documented tool names + unknown names x role input {read, operate, admin, invalid 'root' via WithRole, invalid 'superuser' via Server.Role} x --enable-mutations {off,on} x --enable-runtime-control {off,on} x principal {set, empty}; every row is one Serve session (initialize, tools/list, tools/call with minimal valid arguments) on a fresh scratch directory (seeded SQLite queue db, config file, pid file of a harness child, foreign files); thorough adds every argument-shape variant per row (unknown key, no arguments, actor = / != principal in 4 spellings, missing reason, 7 path spellings, config_apply content x mode, management mode). A case is distinct by (tool, configuration, variant, reference verdict, observed outcome)")
+	r.Set("rule", "complete product: 31 documented tool names + 2 unknown names x role input {read, operate, admin, invalid 'root' via WithRole, invalid 'superuser' via Server.Role} x --enable-mutations {off,on} x --enable-runtime-control {off,on} x principal {set, empty} = 1320 table rows; every row is one Serve session (initialize, tools/list, tools/call with minimal valid arguments) on a fresh scratch directory (seeded SQLite queue db, config file, pid file of a harness child, foreign files) with side-effect probes; every row is repeated for every argument-shape variant of its tool (unknown key, no arguments, actor = / != principal in 4 spellings, missing reason, 7 path spellings, config_apply content{6} x mode{3}, management mode{2}); thorough adds 5 more unknown names (padded / upper-case spellings of real tools), 3 more invalid role inputs, 3 environment states (db missing, config unparsable, config missing) and a repeated call in one session. A case is distinct by (tool, configuration, variant, reference verdict, observed outcome)")
 	r.Assume("reference table transcribed from docs/mcp.md, internal/mcp/spec.md, DESIGN.md 'Access Model' (cross-checked against the tree's docs at run time); 'refused' = JSON-RPC error or result.isError")
 	r.Assume("invalid role strings: the statement does not say whether they mean 'read' (documented default) or 'nothing'; both are accepted for read-level tools as long as tools/list and tools/call agree; anything above read must be refused")
 	r.Assume("queue backend sqlite only (admin-proxy mode for memory/postgres backends is not exercised); process effects are observed on harness-owned children (fake run binary = this test binary, signal-recording sleeper); admin health is an in-process loopback listener")
